@@ -561,11 +561,11 @@ func (ck *Check) literalFields(ctx *Ctx, v ssa.Value) map[string]*Term {
 func init() {
 	register(&propSpec{ID: "C17", Run: checkC17,
 		Explanation: "In (*aws.NodeGroup).IncreaseSize every call that can reach an AWS write is behind δ ≥ 1 ∧ TargetSize + δ ≤ MaxSize (so a rejected request performs no write and desired capacity is never lowered); the set-capacity strategy sends exactly one SetDesiredCapacity with DesiredCapacity = TargetSize + δ for the group's own name; the fleet request has TotalTargetCapacity = MinTargetCapacity = δ on the option block selected by the lifecycle, Type instant; the slice handed to the attach step contains every acquired instance id; the attach calls are a head/tail chunking of that slice with chunk size ≤ 20 (each id in exactly one call).",
-		RuleText:    "R1 bounds first, R2 absolute set, R3 fleet request fields, R4 acquired set, R5 attach chunking, R6 fresh cached target (typestate of C07.R5)",
+		RuleText:    "R1 bounds first, R2 absolute set, R3 fleet request fields, R4 acquired set, R5 attach chunking, R6 fresh cached target (typestate of C07.R5), R7 id lists are not written in place while still read",
 		Assumptions: []string{"that AWS honours MinTargetCapacity (all-or-nothing) and readiness polling are not decided"}})
 	register(&propSpec{ID: "C18", Run: checkC18,
 		Explanation: "In the attach step every return of a non-nil error is immediately preceded by a call of the injected terminate function whose argument is, by the chunking invariant, exactly the complement of the chunks already attached (whole input on timeout; rest ∪ failed batch inside the loop; the remainder on the final call); the success return calls no terminate; between a successful CreateFleet and the attach step nothing is dropped; the production caller injects terminateOrphanedInstances, which issues TerminateInstances per batch of ≤ 1000 ids built from the current batch only; the error is returned unchanged up to ScaleUp, which arms the lock only on err == nil.",
-		RuleText:    "R1 terminate-before-error-exit with complement argument, R2 success exit, R3 nothing dropped, R4 terminate chunking, R5 error chain, R6 no attach / terminate call follows a call that may end the process",
+		RuleText:    "R1 terminate-before-error-exit with complement argument, R2 success exit, R3 nothing dropped, R4 terminate chunking, R5 error chain, R6 no attach / terminate call follows a call that may end the process, R7 id lists are not written in place while still read",
 		Assumptions: []string{"failure of the terminate call itself is only logged (statement: \"submitted for termination\")"}})
 	register(&propSpec{ID: "C19", Run: checkC19,
 		Explanation: "In (*aws.NodeGroup).DeleteNodes the terminate call is behind TargetSize > MinSize ∧ TargetSize − len(nodes) ≥ MinSize and the membership test of that very node, is issued at most once per listed node, with ShouldDecrementDesiredCapacity = true and the InstanceId of the ASG instance whose provider id equals the node's; Belongs and the lookup use the same provider-id mapping; a non-member returns *NodeNotInNodeGroup; the delete step deletes from Kubernetes only after the cloud call returned nil; and that error type is propagated unchanged by every frame up to RunForever, whose result main passes to log.Fatal.",
@@ -582,6 +582,8 @@ func checkC17(ck *Check) {
 	// R6 "exactly the delta" is relative to the cached desired capacity: it must not be stale when
 	// IncreaseSize reads it (decided as C07.R5)
 	ck.cacheTypestate("C17.R6")
+	// R7 the acquired ids reach the attach calls as they were acquired (decided as C18.R7)
+	ck.idListIntegrity("C17.R7")
 }
 
 func isAwsHelper(t *Term, name string) bool {
@@ -1230,6 +1232,7 @@ func checkC18(ck *Check) {
 	}
 	ck.terminateChunking("C18.R4")
 	ck.exitAfterDisposition("C18.R6")
+	ck.idListIntegrity("C18.R7")
 	// R5 (continued): no cool-down lock for capacity that did not arrive — the arming discipline of C02.R2
 	ck.armingRule("C18.R5")
 	// R5 chain upwards
@@ -1266,7 +1269,11 @@ func checkC18(ck *Check) {
 				if !ok {
 					continue
 				}
-				et := cctx.Term(r.Results[1])
+				if len(r.Results) == 0 || !isErrorType(r.Results[len(r.Results)-1].Type()) {
+					ck.fail("C18.R5", fmt.Sprintf("%s/return@block%d", funcID(cs), b.Index), ck.P.instrPos(r), funcID(cs), "the cloud step reports the outcome of IncreaseSize as an error result", "no error result", "a failed increase cannot be told from an accepted one")
+					continue
+				}
+				et := cctx.Term(r.Results[len(r.Results)-1])
 				if !(et.Kind == "const" && et.Name == "nil") {
 					continue
 				}
@@ -1389,29 +1396,91 @@ func (ck *Check) terminateChunking(rule string) {
 			}
 		}
 	}
-	if !peeled && batch != nil && batch.High != nil {
-		ht := ctx.Term(batch.High)
-		// min(i+k, N) through a repo helper or the builtin
-		if ht.Kind == "call" && len(ht.Args) == 2 {
-			sum := &Term{Kind: "binop", Name: "+", Args: []*Term{ctx.Term(iv), intConstTerm(step)}}
-			env := &linEnv{choices: map[string]int{}, root: ctx}
-			for i := 0; i < 2; i++ {
-				l1, e1 := env.linTerm(ht.Args[i])
-				l2, e2 := env.linTerm(sum)
-				if e1 == nil && e2 == nil {
-					d := l1.add(l2, -1)
-					if d.isConst() && d.konst.Sign() == 0 {
-						other := ht.Args[1-i]
-						if other.Kind == "len" || other.Kind == "param" || other.Kind == "phi" || other.Kind == "call" {
-							// the helper must be a minimum
-							if ht.Name == "min" || ck.isMinHelper(ht.Fn) {
-								okBatch = true
-							}
+	// windowEnd: v = min(i+k, N) through a repo helper or the builtin
+	windowEnd := func(v ssa.Value) bool {
+		ht := ctx.Term(v)
+		if ht.Kind != "call" || len(ht.Args) != 2 || iv == nil {
+			return false
+		}
+		sum := &Term{Kind: "binop", Name: "+", Args: []*Term{ctx.Term(iv), intConstTerm(step)}}
+		env := &linEnv{choices: map[string]int{}, root: ctx}
+		for i := 0; i < 2; i++ {
+			l1, e1 := env.linTerm(ht.Args[i])
+			l2, e2 := env.linTerm(sum)
+			if e1 == nil && e2 == nil {
+				d := l1.add(l2, -1)
+				if d.isConst() && d.konst.Sign() == 0 {
+					other := ht.Args[1-i]
+					if other.Kind == "len" || other.Kind == "param" || other.Kind == "phi" || other.Kind == "call" {
+						if ht.Name == "min" || ck.isMinHelper(ht.Fn) {
+							return true
 						}
 					}
 				}
 			}
 		}
+		return false
+	}
+	// idiom D, index window: no batch slice at all —
+	//   ids := make([]string, end-i) with end = min(i+k, N); for j := range ids { ids[j] = *list[i+j] }
+	windowIDs := false
+	if !peeled && batch == nil && iv != nil && es.Wrapper == nil {
+		flds := ck.literalFields(ctx, es.In.Common().Args[0])
+		if idt := flds["InstanceIds"]; isAwsHelper(idt, "StringSlice") {
+			if ms, ok := idt.Args[0].Val.(*ssa.MakeSlice); ok && outer.Blocks[ms.Block()] {
+				if ln, ok := ms.Len.(*ssa.BinOp); ok && ln.Op == token.SUB && ln.Y == ssa.Value(iv) && windowEnd(ln.X) && (ms.Cap == ms.Len) {
+					stores, good := 0, 0
+					for _, r := range *ms.Referrers() {
+						ia, ok := r.(*ssa.IndexAddr)
+						if !ok {
+							continue
+						}
+						for _, rr := range *ia.Referrers() {
+							st, ok := rr.(*ssa.Store)
+							if !ok || st.Addr != ssa.Value(ia) {
+								continue
+							}
+							stores++
+							l := innermostLoop(fn, st.Block())
+							if l == nil || l.Over != ssa.Value(ms) || !l.FullTraversal() || l.Idx == nil || ia.Index != l.Idx {
+								continue
+							}
+							body := And(ctx.BlockPC(l.Header), ctx.edgeCond(l.Header, l.Header.Succs[0]))
+							if eq, _, _ := Equivalent(ctx.PC(st), body); !eq {
+								continue
+							}
+							// the value stored: *list[i+j]
+							d1, ok := st.Val.(*ssa.UnOp)
+							if !ok || d1.Op != token.MUL {
+								continue
+							}
+							d2, ok := d1.X.(*ssa.UnOp)
+							if !ok || d2.Op != token.MUL {
+								continue
+							}
+							src, ok := d2.X.(*ssa.IndexAddr)
+							if !ok {
+								continue
+							}
+							if _, isParam := src.X.(*ssa.Parameter); !isParam {
+								continue
+							}
+							if sum, ok := src.Index.(*ssa.BinOp); ok && sum.Op == token.ADD &&
+								((sum.X == ssa.Value(iv) && sum.Y == l.Idx) || (sum.Y == ssa.Value(iv) && sum.X == l.Idx)) {
+								good++
+							}
+						}
+					}
+					windowIDs = stores == 1 && good == 1
+				}
+			}
+		}
+		if windowIDs {
+			okBatch = true
+		}
+	}
+	if !peeled && batch != nil && batch.High != nil && windowEnd(batch.High) {
+		okBatch = true
 	}
 	ck.cond(okBatch, rule, key+"/batch", ck.P.instrPos(call), funcID(fn), "batch = ids[i : min(i+k, len(ids))]", fmt.Sprint(batch), "the batch bounds do not partition the id list")
 	// the ids sent: StringSlice(x) with x holding exactly the ids of the current batch: collected by
@@ -1431,7 +1500,9 @@ func (ck *Check) terminateChunking(rule string) {
 	ids := flds["InstanceIds"]
 	okIDs := false
 	why := "InstanceIds is not StringSlice(<ids collected from the current batch>)"
-	if B == nil {
+	if windowIDs {
+		okIDs = true
+	} else if B == nil {
 		why = "the wrapper around TerminateInstances is not handed the current batch"
 	} else if isAwsHelper(ids, "StringSlice") {
 		accV := ids.Args[0].Val
@@ -2633,4 +2704,229 @@ func dedupStrings(in []string) []string {
 		}
 	}
 	return out
+}
+
+// idListIntegrity (C18.R7 / C17.R7): the partition argument of the attach step (R1: every id is in
+// exactly one attach call or in the terminated complement) is about the list of acquired ids as
+// acquired. It fails silently if some code compacts or overwrites that list in place while another
+// part of the fleet path still reads it: ids vanish and others appear twice. Decided for every
+// function of the AWS provider: an append into a *truncating* re-slice (x[:k], x[:0]) and an
+// element store are writes into the backing array of x; they are allowed only when no alias of x
+// (φ, re-slice) is read afterwards — in the writing function after the writing loop, and, when x
+// is a parameter, in every caller after the call. Appends into x[k:] only write beyond the end and
+// are not in-place writes.
+func (ck *Check) idListIntegrity(rule string) {
+	isIDList := func(t types.Type) bool {
+		sl, ok := t.Underlying().(*types.Slice)
+		if !ok {
+			return false
+		}
+		et := sl.Elem()
+		if pt, ok := et.Underlying().(*types.Pointer); ok {
+			et = pt.Elem()
+		}
+		b, ok := et.Underlying().(*types.Basic)
+		return ok && b.Kind() == types.String
+	}
+	aliasSet := func(v ssa.Value) map[ssa.Value]bool {
+		set := map[ssa.Value]bool{}
+		var add func(x ssa.Value)
+		add = func(x ssa.Value) {
+			if x == nil || set[x] {
+				return
+			}
+			if _, isConst := x.(*ssa.Const); isConst {
+				return
+			}
+			set[x] = true
+			switch y := x.(type) {
+			case *ssa.Phi:
+				for _, e := range y.Edges {
+					add(e)
+				}
+			case *ssa.Slice:
+				add(y.X)
+			}
+			if refs := x.Referrers(); refs != nil {
+				for _, r := range *refs {
+					switch z := r.(type) {
+					case *ssa.Phi:
+						add(z)
+					case *ssa.Slice:
+						if z.X == x {
+							add(z)
+						}
+					}
+				}
+			}
+		}
+		add(v)
+		return set
+	}
+	// readsAfter: instructions that read an alias of v and can run after `after`, outside `skipLoop`
+	readsAfter := func(fn *ssa.Function, set map[ssa.Value]bool, after ssa.Instruction, skipLoop *Loop) []ssa.Instruction {
+		reach := map[*ssa.BasicBlock]bool{}
+		var walk func(b *ssa.BasicBlock)
+		walk = func(b *ssa.BasicBlock) {
+			for _, s2 := range b.Succs {
+				if !reach[s2] {
+					reach[s2] = true
+					walk(s2)
+				}
+			}
+		}
+		walk(after.Block())
+		idxOf := func(in ssa.Instruction) int {
+			for i, x := range in.Block().Instrs {
+				if x == in {
+					return i
+				}
+			}
+			return -1
+		}
+		var out []ssa.Instruction
+		seen := map[ssa.Instruction]bool{}
+		for v := range set {
+			refs := v.Referrers()
+			if refs == nil {
+				continue
+			}
+			for _, u := range *refs {
+				if u == after || seen[u] {
+					continue
+				}
+				switch x := u.(type) {
+				case *ssa.Phi, *ssa.Slice, *ssa.DebugRef, *ssa.Return:
+					continue
+				case *ssa.Call:
+					if b, ok := x.Common().Value.(*ssa.Builtin); ok && (b.Name() == "len" || b.Name() == "cap") {
+						continue
+					}
+				}
+				if skipLoop != nil && skipLoop.Blocks[u.Block()] {
+					continue
+				}
+				if reach[u.Block()] || (u.Block() == after.Block() && idxOf(u) > idxOf(after)) {
+					seen[u] = true
+					out = append(out, u)
+				}
+			}
+		}
+		sort.Slice(out, func(i, j int) bool { return out[i].Pos() < out[j].Pos() })
+		return out
+	}
+	// truncated: base reaches (through φ / re-slices) a re-slice with an upper bound; returns the
+	// sliced value
+	var truncated func(v ssa.Value, seen map[ssa.Value]bool) ssa.Value
+	truncated = func(v ssa.Value, seen map[ssa.Value]bool) ssa.Value {
+		if seen[v] {
+			return nil
+		}
+		seen[v] = true
+		switch x := v.(type) {
+		case *ssa.Slice:
+			if _, isAlloc := x.X.(*ssa.Alloc); isAlloc {
+				return nil // a fresh array
+			}
+			if x.High != nil {
+				return x.X
+			}
+			return truncated(x.X, seen)
+		case *ssa.Phi:
+			for _, e := range x.Edges {
+				if r := truncated(e, seen); r != nil {
+					return r
+				}
+			}
+		}
+		return nil
+	}
+	paramRoot := func(v ssa.Value) *ssa.Parameter {
+		for x := range aliasSet(v) {
+			if p, ok := x.(*ssa.Parameter); ok {
+				return p
+			}
+		}
+		return nil
+	}
+	nfn, nwrites, bad := 0, 0, 0
+	for _, fn := range ck.P.Funcs {
+		if pkgPathOfFn(fn) != pkgAWS {
+			continue
+		}
+		nfn++
+		for _, b := range fn.Blocks {
+			for _, in := range b.Instrs {
+				var target ssa.Value // the list written in place
+				what := ""
+				switch x := in.(type) {
+				case *ssa.Call:
+					if ap, ok := isBuiltinCall(x, "append"); ok && isIDList(ap.Type()) {
+						if src := truncated(ap.Common().Args[0], map[ssa.Value]bool{}); src != nil {
+							target, what = src, "append into a truncated re-slice of "+src.Name()
+						}
+					}
+				case *ssa.Store:
+					if ia, ok := x.Addr.(*ssa.IndexAddr); ok && isIDList(ia.X.Type()) {
+						if _, fresh := ia.X.(*ssa.MakeSlice); !fresh {
+							root := ia.X
+							if sl, ok := root.(*ssa.Slice); ok {
+								if _, isAlloc := sl.X.(*ssa.Alloc); isAlloc {
+									continue
+								}
+							}
+							if paramRoot(root) != nil {
+								target, what = root, "element store into "+root.Name()
+							}
+						}
+					}
+				}
+				if target == nil {
+					continue
+				}
+				nwrites++
+				key := fmt.Sprintf("%s/%s", funcID(fn), ck.P.siteKeyInstr(in))
+				set := aliasSet(target)
+				var offenders []string
+				for _, u := range readsAfter(fn, set, in, innermostLoop(fn, in.Block())) {
+					offenders = append(offenders, ck.P.instrPos(u))
+				}
+				if p := paramRoot(target); p != nil {
+					idx := -1
+					for i, q := range fn.Params {
+						if q == p {
+							idx = i
+						}
+					}
+					for _, caller := range ck.P.callers[fn] {
+						for _, ci := range callsTo(caller, fn) {
+							if idx < 0 || idx >= len(ci.Common().Args) {
+								continue
+							}
+							cin, ok := ci.(ssa.Instruction)
+							if !ok {
+								continue
+							}
+							for _, u := range readsAfter(caller, aliasSet(ci.Common().Args[idx]), cin, nil) {
+								offenders = append(offenders, funcID(caller)+"@"+ck.P.instrPos(u))
+							}
+						}
+					}
+				}
+				if len(offenders) > 0 {
+					bad++
+					if len(offenders) > 4 {
+						offenders = append(offenders[:4], "…")
+					}
+					ck.fail(rule, key, ck.P.instrPos(in), funcID(fn), "an id list is written in place only when nothing reads the list (or a re-slice of it) afterwards", what+"; still read at "+strings.Join(offenders, ", "),
+						"ids of acquired instances vanish from the list and others appear twice: some instances are neither attached nor submitted for termination, others both")
+				}
+			}
+		}
+	}
+	ck.Stats[rule+" in-place id-list writes examined"] = nwrites
+	if bad == 0 {
+		ck.ok(rule, "id-lists/integrity", "", "", "an id list is written in place only when nothing reads the list (or a re-slice of it) afterwards", fmt.Sprintf("%d functions of the AWS provider, %d in-place writes examined", nfn, nwrites))
+	}
+	ck.floor(rule, "functions of the AWS provider examined", nfn, 20)
 }
